@@ -7,7 +7,7 @@ channel x format, own reports, every fault point (sitecustomize injection), `-o`
 model's (exit, stdout class, report_id class, -o file).  Search: the Python oracle in implops_cli.oracle.
 """
 from . import cli_common as cc
-from .common import conclude
+from .common import conclude, jline, junline
 from .. import core
 
 THEOREM_FILES = ["Properties/C19.lean"]
@@ -120,6 +120,19 @@ def run(chk):
     found = cc.collect_violations(lines, real, KINDS)
     pair_bad, npairs = channel_pairs(lines, real)
     found += pair_bad
+    # the same bytes as a file and on stdin, for bytes that are not a text: a project with a Latin-1 byte in it must fare alike
+    # on both channels (exit status, nothing on stdout)
+    nat_reqs = [{"op": "cli_natural", "k": chk.rng.randrange(0, 64), "fmt": f} for f in ("json", "csv")]
+    for rq, ans in zip(nat_reqs, cc.run_impl_parallel(chk, [jline(r) for r in nat_reqs])):
+        r = junline(ans)
+        if "_raw" in r:
+            raise core.HarnessFault(f"cli_natural worker failed: {ans[:400]}")
+        ef, es = r["file"]["line"].split()[1], r["stdin"]["line"].split()[1]
+        if ef != es or bool(r["file"]["stdout_bytes"]) != bool(r["stdin"]["stdout_bytes"]):
+            found.append((f"the same bytes (not valid UTF-8) end with exit {ef} as a file and exit {es} on stdin "
+                          f"(stdout bytes {r['file']['stdout_bytes']} / {r['stdin']['stdout_bytes']})",
+                          {"stream": "cli-natural", "input": jline(rq), "impl": r, "finding": None, "kind": "channels"}))
+    chk.cov["evaluations"] += 2 * len(nat_reqs)
     # coverage
     nontrivial = set()
     hist = {}
